@@ -44,6 +44,8 @@ def run_cfg(chk, facts, cfg):
     if not chk.anchor('Interval+constructors' + sfx, m if m.ok() else None):
         chk.notes.extend(m.problems)
         return
+    from ..overrides import obligation as no_overrides
+    no_overrides(chk, PID, facts, sfx, [m.path], 'approx impls of Interval (the *_ne forms follow from the *_eq forms)')
     has_approx = 'approx' in facts.meta['features']
     n = 0
     for trait, meth, tols in APPROX:
